@@ -13,9 +13,10 @@ RULE = ("sparse and dense corpora, documents from a few to several hundred token
         "and one near-miss document. Distinct by input hash.")
 TRUSTED = B.TRUSTED
 ASSUMPTIONS = B.ASSUMPTIONS + ["phrases of at most 64 terms (curr_idx capacity)"]
-EXPLANATION = ("No theorem about the span machine is closed: the level is `other`. The model (Span/Span.v) is a faithful "
-               "transliteration incl. the 512-slot table, compaction, the give-up path and the min-popcount fallback; the "
-               "clauses are decided on generated inputs by the spec oracle (Span/Span_Spec.v) on both model and implementation.")
+EXPLANATION = ("Theorems (Props/C15.v, closed): one entry per row; a match contains every term. The exact-match and window "
+               "clauses are not proved: level `other`. The model (Span/Span.v) is a faithful transliteration incl. the "
+               "512-slot table, compaction, the give-up path and the min-popcount fallback; all clauses are decided on "
+               "generated inputs by the spec oracle (Span/Span_Spec.v) on both model and implementation.")
 
 
 def gen(rng, tier):
